@@ -140,6 +140,10 @@ func c04(c *Ctx) {
 	}
 	r.Check(nApp >= 1, "C04.R1", "conditions are registered", "", "an append exists", "no function ever appends a condition to the list")
 
+	if n := checkCreatedWhenRecorded(p, r, "C04.R14"); n == 0 {
+		r.Und("C04.R14", "created When", "", "no mocker method returning a When built by CreateWhen found")
+	}
+	checkForwardUnderCancelGuards(p, r, "C04.R14")
 	// ---- R2 selection function
 	var sel *ssa.Function
 	for _, f := range root {
